@@ -45,6 +45,7 @@ const (
 	OpBOr
 	OpBNot
 	OpUF // uninterpreted function application: name = function symbol
+	OpSelect // constant table lookup: tab[args[0]]
 )
 
 var opNames = map[Op]string{
@@ -63,6 +64,7 @@ type Term struct {
 	name string
 	args []*Term
 	umax uint64 // upper bound on the unsigned value (BV terms)
+	tab  *tableT
 }
 
 func (t *Term) IsConst() bool { return t.op == OpConst }
@@ -91,6 +93,7 @@ type TermStore struct {
 	ufSeq []string
 	tt    *Term
 	ff    *Term
+	linc  *linCtx
 }
 
 // Constants are global (shared by all stores, including the init-time heap) so that frozen
@@ -235,6 +238,14 @@ func (s *TermStore) computeUmax(t *Term) uint64 {
 		return mm
 	case OpConcat:
 		return m
+	case OpSelect:
+		var mx uint64
+		for _, v := range t.tab.vals {
+			if v > mx {
+				mx = v
+			}
+		}
+		return mx
 	}
 	return m
 }
@@ -399,6 +410,9 @@ func (s *TermStore) bin(op Op, a, b *Term) *Term {
 			if a.umax <= b.k && b.k&(b.k+1) == 0 {
 				return a
 			}
+			if a.umax < b.k&-b.k {
+				return s.Const(w, 0)
+			}
 		}
 		if a == b {
 			return a
@@ -522,13 +536,10 @@ func (s *TermStore) Extract(a *Term, hi, lo int) *Term {
 			return s.Extract(h, hi-l.w, lo-l.w)
 		}
 	case OpAnd, OpOr, OpXor:
-		// push extract through bitwise ops when one side is const (common masks)
-		if a.args[1].IsConst() {
-			return s.bin(a.op, s.Extract(a.args[0], hi, lo), s.Extract(a.args[1], hi, lo))
-		}
-		if lo == 0 {
-			return s.bin(a.op, s.Extract(a.args[0], hi, lo), s.Extract(a.args[1], hi, lo))
-		}
+		// extraction commutes with bitwise operations
+		return s.bin(a.op, s.Extract(a.args[0], hi, lo), s.Extract(a.args[1], hi, lo))
+	case OpNot:
+		return s.Not(s.Extract(a.args[0], hi, lo))
 	case OpAdd, OpSub, OpMul:
 		if lo == 0 {
 			return s.bin(a.op, s.Extract(a.args[0], hi, 0), s.Extract(a.args[1], hi, 0))
@@ -545,6 +556,9 @@ func (s *TermStore) Extract(a *Term, hi, lo int) *Term {
 				if hi-c < x.w {
 					return s.Extract(x, hi-c, lo-c)
 				}
+			}
+			if lo < c && c <= hi && nw <= 64 {
+				return s.Concat(s.Extract(a.args[0], hi-c, 0), s.Const(c-lo, 0))
 			}
 		}
 	case OpLShr:
@@ -603,6 +617,9 @@ func (s *TermStore) SExt(a *Term, w int) *Term {
 func (s *TermStore) Concat(hi, lo *Term) *Term {
 	if hi.IsConst() && lo.IsConst() && hi.w+lo.w <= 64 {
 		return s.Const(hi.w+lo.w, hi.k<<uint(lo.w)|lo.k)
+	}
+	if hi.IsConst() && hi.k == 0 {
+		return s.ZExt(lo, hi.w+lo.w)
 	}
 	return s.mk(&Term{op: OpConcat, w: hi.w + lo.w, args: []*Term{hi, lo}})
 }
@@ -692,7 +709,38 @@ func (s *TermStore) Eq(a, b *Term) *Term {
 			if a.args[1].IsConst() {
 				return s.Eq(a.args[0], s.Const(a.w, b.k^a.args[1].k))
 			}
+		case OpSelect:
+			// which indices give this value?
+			idx := a.args[0]
+			var hits []uint64
+			for i, v := range a.tab.vals {
+				if v == b.k {
+					hits = append(hits, uint64(i))
+				}
+			}
+			if len(hits) == 0 {
+				return s.ff
+			}
+			if len(hits) == len(a.tab.vals) {
+				return s.tt
+			}
+			if len(hits) <= 4 {
+				res := s.ff
+				for _, h := range hits {
+					res = s.BOr(res, s.Eq(idx, s.Const(idx.w, h)))
+				}
+				return res
+			}
+			if a.w > 1 {
+				return s.selectPred(a, func(v uint64) bool { return v == b.k })
+			}
 		}
+	}
+	switch s.linEq(a, b) {
+	case 1:
+		return s.tt
+	case 0:
+		return s.ff
 	}
 	return s.mk(&Term{op: OpEq, w: 0, args: order(a, b)})
 }
@@ -733,6 +781,12 @@ func (s *TermStore) Ult(a, b *Term) *Term {
 		}
 		return s.Ult(x, s.Const(x.w, b.k))
 	}
+	if a.op == OpSelect && b.IsConst() {
+		return s.selectPred(a, func(v uint64) bool { return v < b.k })
+	}
+	if b.op == OpSelect && a.IsConst() {
+		return s.selectPred(b, func(v uint64) bool { return a.k < v })
+	}
 	if b.op == OpZExt && a.IsConst() {
 		x := b.args[0]
 		if a.k >= mask(x.w) {
@@ -745,6 +799,18 @@ func (s *TermStore) Ult(a, b *Term) *Term {
 	}
 	return s.mk(&Term{op: OpUlt, w: 0, args: []*Term{a, b}})
 }
+// selectPred pushes a predicate on a table lookup into the table.
+func (s *TermStore) selectPred(sel *Term, pred func(uint64) bool) *Term {
+	nv := make([]uint64, len(sel.tab.vals))
+	for i, v := range sel.tab.vals {
+		if pred(v) {
+			nv[i] = 1
+		}
+	}
+	r := s.Select(internTable(nv, 1), sel.args[0])
+	return s.Eq(r, s.Const(1, 1))
+}
+
 func (s *TermStore) Ule(a, b *Term) *Term { return s.BNot(s.Ult(b, a)) }
 
 func (s *TermStore) Slt(a, b *Term) *Term {
@@ -762,12 +828,43 @@ func (s *TermStore) Slt(a, b *Term) *Term {
 }
 func (s *TermStore) Sle(a, b *Term) *Term { return s.BNot(s.Slt(b, a)) }
 
+// predSelect recognises the canonical form (= Select(T,i) #b1) of a predicate on a table index.
+func predSelect(t *Term) *Term {
+	if t.op == OpEq {
+		for k := 0; k < 2; k++ {
+			if t.args[k].op == OpSelect && t.args[k].w == 1 && t.args[1-k].IsConst() && t.args[1-k].k == 1 {
+				return t.args[k]
+			}
+		}
+	}
+	return nil
+}
+
+func (s *TermStore) combinePred(a, b *Term, f func(x, y uint64) uint64) *Term {
+	pa, pb := predSelect(a), predSelect(b)
+	if pa == nil || pb == nil || pa.args[0] != pb.args[0] || len(pa.tab.vals) != len(pb.tab.vals) {
+		return nil
+	}
+	nv := make([]uint64, len(pa.tab.vals))
+	for i := range nv {
+		nv[i] = f(pa.tab.vals[i], pb.tab.vals[i]) & 1
+	}
+	return s.Eq(s.Select(internTable(nv, 1), pa.args[0]), s.Const(1, 1))
+}
+
 func (s *TermStore) BNot(a *Term) *Term {
 	if a.IsConst() {
 		return s.Bool(a.k == 0)
 	}
 	if a.op == OpBNot {
 		return a.args[0]
+	}
+	if p := predSelect(a); p != nil {
+		nv := make([]uint64, len(p.tab.vals))
+		for i, v := range p.tab.vals {
+			nv[i] = v ^ 1
+		}
+		return s.Eq(s.Select(internTable(nv, 1), p.args[0]), s.Const(1, 1))
 	}
 	return s.mk(&Term{op: OpBNot, w: 0, args: []*Term{a}})
 }
@@ -790,6 +887,9 @@ func (s *TermStore) BAnd(a, b *Term) *Term {
 	if (a.op == OpBNot && a.args[0] == b) || (b.op == OpBNot && b.args[0] == a) {
 		return s.ff
 	}
+	if c := s.combinePred(a, b, func(x, y uint64) uint64 { return x & y }); c != nil {
+		return c
+	}
 	return s.mk(&Term{op: OpBAnd, w: 0, args: []*Term{a, b}})
 }
 func (s *TermStore) BOr(a, b *Term) *Term {
@@ -810,6 +910,9 @@ func (s *TermStore) BOr(a, b *Term) *Term {
 	}
 	if (a.op == OpBNot && a.args[0] == b) || (b.op == OpBNot && b.args[0] == a) {
 		return s.tt
+	}
+	if c := s.combinePred(a, b, func(x, y uint64) uint64 { return x | y }); c != nil {
+		return c
 	}
 	return s.mk(&Term{op: OpBOr, w: 0, args: []*Term{a, b}})
 }
@@ -849,6 +952,8 @@ func (t *Term) body() string {
 		fmt.Fprintf(&sb, "((_ zero_extend %d) %s)", t.w-t.args[0].w, t.args[0].ref())
 	case OpSExt:
 		fmt.Fprintf(&sb, "((_ sign_extend %d) %s)", t.w-t.args[0].w, t.args[0].ref())
+	case OpSelect:
+		return t.selectBody()
 	case OpUF:
 		if len(t.args) == 0 {
 			return t.name
